@@ -416,17 +416,17 @@ def run_C07(run):
 # ------------------------------------------------------------------------------------------ C05
 def run_C05(run):
     shards = ["C05/P_C05_w16_%d.v" % k for k in range(8)]
-    run.prove([], ["C05/A_C05_defs.v"], ["C05/P_C05_w8.v", "C05/P_C05_general.v", "C05/P_C05_reverse.v"] + shards, "C05/Properties_C05.v", timeout=1500)
+    run.prove([], ["C05/A_C05_defs.v", "C05/P_C05_count.v"], ["C05/P_C05_w8.v", "C05/P_C05_general.v", "C05/P_C05_reverse.v", "C05/P_C05_msb.v", "C05/P_C05_insert.v"] + shards, "C05/Properties_C05.v", timeout=1500)
     run.run_corr("impl_C05.cpp", [run.seed, run.tier])
     fails = oracle_sweep(run, "C05", [("all", [])], run.tier, opt="-O1")
     run.fails = run.triage(fails)
-    run.assumptions = ["32/64-bit element types: bitCount, findLSB, findMSB, bitfieldReverse and bitfieldInsert are NOT theorems (no lifting lemma for the additive ladders was completed); they are covered by the correspondence check and the bit-by-bit oracle on single-bit, run-of-ones, boundary and random patterns (testing)",
+    run.assumptions = ["bitCount, findLSB, findMSB, bitfieldReverse, bitfieldInsert and unsigned bitfieldExtract are theorems for every value of every 8/16/32/64-bit element type, about the hand model IntFn.v (the ladders with the masks and shifts of func_integer.inl); the model is tied to the compiled code by the correspondence check and the bit-by-bit oracle (testing)",
                        "the vector overloads are tied to the scalar model by the correspondence driver (one lane carries the operand) and by C01's lift theorem for bitfieldExtract/Insert/Reverse",
                        "GLM_HAS_BITSCAN_WINDOWS paths (MSVC intrinsics) are not compiled here and not modelled"]
     run.samples.append("correspondence: all 256 values of int8/uint8 exhaustively; 2500 structured values (0, ~0, single bit, single zero, run of ones, INT_MIN/MAX, 0x55.., 0xAA.., small, random) for 16/32/64-bit; random (offset,bits) fields incl. zero-width and full-width; scalar and vector overloads")
-    return run.finish(TRUST_H + ["oracle_C05.cpp: loop-based one-bit-at-a-time references (violation search; sole check of the 32/64-bit items above)"],
-                      "theorems: exhaustive over all 8- and 16-bit values (and all 8-bit fields); all 32-bit operand pairs for carry/borrow/extended multiplication; all widths/values/fields<32 bits for unsigned bitfieldExtract",
-                      "coqc (A_C05_defs, P_C05_w8, P_C05_w16_0..7, P_C05_general, Properties_C05); tools/corr/impl_C05 | coq/extract/corr_model")
+    return run.finish(TRUST_H + ["oracle_C05.cpp: loop-based one-bit-at-a-time references (violation search)"],
+                      "theorems: every value of the 8/16/32/64-bit element types for bitCount/findLSB/findMSB/bitfieldReverse/bitfieldInsert/unsigned bitfieldExtract (and again exhaustively over all 8- and 16-bit values); all 32-bit operand pairs for carry/borrow/extended multiplication",
+                      "coqc (lib/PopLadder, lib/OrHom, A_C05_defs, P_C05_count, P_C05_msb, P_C05_insert, P_C05_reverse, P_C05_w8, P_C05_w16_0..7, P_C05_general, Properties_C05); tools/corr/impl_C05 | coq/extract/corr_model")
 
 
 # ------------------------------------------------------------------------------------------ C18
